@@ -89,6 +89,15 @@ func (s *script) pickWnd() uint16 {
 	}
 }
 
+// withTS adds the timestamp option the scripted peer uses (when timestamps were negotiated)
+func (s *script) withTS(t netx.TCPSeg) netx.TCPSeg {
+	if s.c.Cfg.PeerTS {
+		ecr := uint32(1 + s.r.Intn(1000))
+		t.Opts = []byte{1, 1, 8, 10, 0, 0, 0, byte(2 + len(s.steps)), byte(ecr >> 24), byte(ecr >> 16), byte(ecr >> 8), byte(ecr)}
+	}
+	return t
+}
+
 func (s *script) seg(t netx.TCPSeg) bool {
 	if s.c.Cfg.PeerTS {
 		// timestamp option: NOP NOP TS(val, ecr); ecr non-zero most of the time
@@ -179,7 +188,117 @@ func (s *script) mtuShrink() bool {
 	if !s.c.InjectFragNeeded(uint16(m), st.SndUna) {
 		return s.read()
 	}
-	return s.snapObs("EWrite []", "RCount 0")
+	return s.snapObs(mtuEvent(m), "RCount 0")
+}
+
+// an MTU notification in the trace: a "write" that is accepted for 0 bytes and whose "data" are the
+// reported next-hop MTUs + 1000 (no byte of a real write can be that large)
+func mtuEvent(ms ...int) string {
+	v := make([]string, len(ms))
+	for i, m := range ms {
+		v[i] = fmt.Sprint(1000 + m)
+	}
+	return "EWrite [" + strings.Join(v, ";") + "]"
+}
+
+// mtuDouble: two routers report different MTUs for the same flight, the smaller one first, back to
+// back: whichever way the two notifications are folded together, the smaller limit must win.
+// Recorded like mtuShrink (an application write of zero bytes).
+func (s *script) mtuDouble() bool {
+	st := s.c.Snap()
+	mp := st.MaxPayload
+	if mp < 60 || s.c.Cfg.V6 {
+		return s.mtuShrink()
+	}
+	small := 68 + s.r.Intn((mp+40-68)/2)
+	big := small + 1 + s.r.Intn(mp+40-small)
+	if !s.c.InjectFragNeededBurst(st.SndUna, uint16(small), uint16(big)) {
+		return s.read()
+	}
+	return s.snapObs(mtuEvent(small, big), "RCount 0")
+}
+
+// mtuCoalesced: two routers report different MTUs, the smaller one first, and BOTH messages are
+// recorded before the protocol goroutine applies either (deterministically: the goroutine is held
+// inside the link endpoint's WritePacket of a pure ACK - the answer to an in-order data segment of
+// the peer - while the two ICMP messages are delivered).  The smaller limit must win.  Two
+// observations are recorded, both with the state after the whole exchange: the peer's segment with
+// the frames emitted before the messages were delivered (the ACK), then the MTU notification with
+// everything emitted afterwards.
+func (s *script) mtuCoalesced() bool {
+	st := s.c.Snap()
+	mp := st.MaxPayload
+	if mp < 60 || s.c.Cfg.V6 || s.pNext >= len(s.peer) || st.EState != 4 {
+		return s.mtuShrink()
+	}
+	small := 68 + s.r.Intn((mp+40-68)/2)
+	big := small + 1 + s.r.Intn(mp+40-small)
+	n := 1 + s.r.Intn(s.mss)
+	if s.pNext+n > len(s.peer) {
+		n = len(s.peer) - s.pNext
+	}
+	// the segment acknowledges nothing new and repeats the window in force, so that it gives the
+	// sender no reason to transmit: the only frame it provokes is the ACK of its data
+	t := s.withTS(netx.TCPSeg{Seq: s.seqOf(s.pNext), Ack: st.SndUna, Flags: netx.FlagAck, Wnd: uint16(st.SndWnd >> st.SndWndScale), Payload: s.peer[s.pNext : s.pNext+n]})
+	inHook, release := make(chan struct{}, 1), make(chan struct{})
+	fired := false
+	s.c.N.L.OnFrame = func(f netx.Frame) {
+		if fired {
+			return
+		}
+		fired = true
+		inHook <- struct{}{}
+		<-release
+	}
+	s.c.InjectRaw(t)
+	held := false
+	select {
+	case <-inHook:
+		held = true
+	case <-time.After(2 * time.Second):
+	}
+	var pre []netx.TCPSeg
+	if held {
+		pre = s.c.Frames()
+		s.c.InjectFragNeededBurst(st.SndUna, uint16(small), uint16(big))
+		close(release)
+	}
+	s.c.N.L.OnFrame = nil
+	if !held {
+		// no frame was emitted in answer (e.g. the segment was dropped): an ordinary segment event
+		s.count("mtu-coalesced-not-held")
+		rto := int64(0)
+		if s.c.Sync(5 * time.Second) {
+			rto = s.c.Snap().Rto
+		}
+		s.pNext += n
+		return s.snapObs(fmt.Sprintf("ESeg %s %d", tcpx.CoqSeg(t), rto), "RNone")
+	}
+	if !s.c.Sync(5 * time.Second) {
+		s.steps = append(s.steps, "HUNG mtu-coalesced")
+		return false
+	}
+	s.pNext += n
+	post := s.c.Frames()
+	for _, f := range append(append([]netx.TCPSeg{}, pre...), post...) {
+		end := f.Seq + uint32(len(f.Payload))
+		if f.Flags&netx.FlagFin != 0 {
+			end++
+		}
+		if int32(end-s.maxEnd) > 0 {
+			s.maxEnd = end
+		}
+		if f.Flags&netx.FlagRst == 0 {
+			s.advAck, s.advWnd = f.Ack, f.Wnd
+		}
+	}
+	fin := s.c.Snap()
+	// the first observation is taken "before the notification": same state, old payload limit
+	mid := fin
+	mid.MaxPayload = mp
+	s.steps = append(s.steps, fmt.Sprintf("mkObs (ESeg %s %d) %s %s (RNone)", tcpx.CoqSeg(t), fin.Rto, tcpx.CoqState(mid), tcpx.CoqFrames(pre)))
+	s.steps = append(s.steps, fmt.Sprintf("mkObs (%s) %s %s (RCount 0)", mtuEvent(small, big), tcpx.CoqState(fin), tcpx.CoqFrames(post)))
+	return fin.EState == 4
 }
 
 // mtuRecovery: loss recovery meets a path-MTU reduction.  A flight of full-sized segments, three
@@ -213,7 +332,7 @@ func (s *script) mtuRecovery() bool {
 	if !s.c.InjectFragNeeded(uint16(m), st.SndUna) {
 		return true
 	}
-	if !s.snapObs("EWrite []", "RCount 0") {
+	if !s.snapObs(mtuEvent(m), "RCount 0") {
 		return false
 	}
 	for i := 0; i < 4+s.r.Intn(5); i++ {
@@ -421,6 +540,14 @@ func (s *script) count(k string) { s.evKinds[k]++ }
 // one event according to the mix; returns false when the connection is no longer connected
 func (s *script) event() bool {
 	if mtuEvents && !s.c.Cfg.V6 && s.r.Intn(12) == 0 {
+		switch s.r.Intn(4) {
+		case 0:
+			s.count("mtu-double-report")
+			return s.mtuDouble()
+		case 1:
+			s.count("mtu-coalesced-reports")
+			return s.mtuCoalesced()
+		}
 		s.count("mtu-shrink")
 		return s.mtuShrink()
 	}
